@@ -643,6 +643,10 @@ func (p *Process) handleOutput(pipe io.ReadCloser, output string, handler func(m
 	reader := bufio.NewReader(pipe)
 	for {
 		line, err := reader.ReadString('\n')
+		if err == io.EOF && line != "" {
+			// the stream ended in a line without a trailing newline: it is output like any other
+			err = nil
+		}
 		if err != nil {
 			if err == io.EOF {
 				break
